@@ -98,6 +98,16 @@ pub fn universe() -> Vec<RuleSpec> {
     r.headers = vec![hc("match_regex", "X", Some("V@m"))];
     r.markers.push(("m".into(), "[0-9]+".into()));
     v.push(r);
+    // r16 / r17: two rules on ONE dynamic host pattern under a scheme no other rule uses (the host layer of that scheme holds one
+    // pattern and two routes)
+    for (id, path) in [("r16", "/a"), ("r17", "/b")] {
+        let mut r = mk(id, &format!("{id} http + dynamic host @h.two.example + {path}"));
+        r.scheme = Some("http".into());
+        r.host = Some("@h.two.example".into());
+        r.markers.push(("h".into(), "(cat|dog)".into()));
+        r.path = path.into();
+        v.push(r);
+    }
     // r13: the empty host is legal and means "any host"
     let mut r = mk("r13", "r13 host \"\" (any host) static /a");
     r.host = Some(String::new());
